@@ -37,6 +37,8 @@ pub enum Ty {
     Callback,
     /// a nested subscription (`U: Subscription`)
     Sub,
+    /// a boxed subscriber of a subject (`Box<dyn Publisher<..>>`)
+    Pub,
     Named(String),
 }
 
@@ -52,6 +54,7 @@ impl Ty {
             Ty::Counter => "Nat".into(),
             Ty::Callback => "Rs.Callback".into(),
             Ty::Sub => "Rs.Sub".into(),
+            Ty::Pub => "Rs.Pub".into(),
             Ty::Opt(t) => format!("(Option {})", t.lean()),
             Ty::List(t) => format!("(List {})", t.lean()),
             Ty::Tuple(ts) => format!("({})", ts.iter().map(|t| t.lean()).collect::<Vec<_>>().join(" × ")),
@@ -72,6 +75,10 @@ type Res<T> = Result<T, String>;
 
 fn bail<T>(msg: impl Into<String>) -> Res<T> {
     Err(msg.into())
+}
+
+fn show_full<T: quote::ToTokens>(t: &T) -> String {
+    quote::quote!(#t).to_string()
 }
 
 fn show<T: quote::ToTokens>(t: &T) -> String {
@@ -107,7 +114,7 @@ fn type_args(p: &syn::Path) -> Vec<&Type> {
 
 const CELLS: &[&str] = &["MutRc", "MutArc", "Rc", "Arc", "RefCell", "Mutex", "Cell"];
 /// the traits whose impls are translated
-const TRAITS: &[&str] = &["Observer", "Subscription"];
+const TRAITS: &[&str] = &["Observer", "Subscription", "Publisher", "SubjectSize", "Observable"];
 const PHANTOMS: &[&str] = &["TypeHint", "PhantomData"];
 
 impl Generics {
@@ -201,10 +208,23 @@ impl Generics {
                     Ok(Ty::Tuple(tt.elems.iter().map(|e| self.ty(e)).collect::<Res<Vec<_>>>()?))
                 }
             }
+            Type::Array(a) => self.ty(&a.elem),
+            Type::TraitObject(to) => {
+                for b in &to.bounds {
+                    if let TypeParamBound::Trait(tb) = b {
+                        if last_seg(&tb.path) == "Publisher" {
+                            return Ok(Ty::Pub);
+                        }
+                    }
+                }
+                bail(format!("type `{}` not understood", show(t)))
+            }
             Type::Path(tp) => {
                 let name = last_seg(&tp.path);
                 let args = type_args(&tp.path);
                 match name.as_str() {
+                    "Box" if args.len() == 1 => self.ty(args[0]),
+                    "SmallVec" if args.len() == 1 => Ok(Ty::List(Box::new(self.ty(args[0])?))),
                     "usize" | "u32" | "u64" | "u8" | "u16" => Ok(Ty::Nat),
                     "bool" | "AtomicBool" => Ok(Ty::Bool),
                     "Option" => Ok(Ty::Opt(Box::new(self.ty(args[0])?))),
@@ -271,10 +291,19 @@ pub struct Ctx {
     pub aliases: HashMap<String, (Vec<String>, Type)>,
 }
 
+#[derive(Clone)]
 pub struct MethodInfo {
     /// `&mut self` / `self` methods without result thread (self, out); `&self` methods with a result are pure
     pub effectful: bool,
     pub params: Vec<(String, Ty)>,
+    /// the body asks subscribers / subscriptions whether they are closed: extra parameter `closedOf`
+    pub needs_closed: bool,
+    /// the body asks an observer whether it is finished: extra parameter `down`
+    pub needs_down: bool,
+    /// `actual_subscribe` of a subject: extra parameter `newPub`
+    pub needs_pub: bool,
+    /// result type of a pure method
+    pub ret: Ty,
 }
 
 pub struct StructInfo {
@@ -396,7 +425,7 @@ impl<'a> Fx<'a> {
             Expr::Paren(p) => self.place(&p.expr),
             Expr::Reference(r) => self.place(&r.expr),
             Expr::Unary(u) if matches!(u.op, UnOp::Deref(_)) => self.place(&u.expr),
-            _ if Self::is_self(e) && !self.newtype => Ok(Place { root_self: true, local: String::new(), path: vec![] }),
+            _ if Self::is_self(e) => Ok(Place { root_self: true, local: String::new(), path: vec![] }),
             _ if self.is_root(e) => Ok(Place { root_self: true, local: String::new(), path: vec![] }),
             Expr::Path(p) if p.path.segments.len() == 1 => {
                 let n = ident(&last_seg(&p.path));
@@ -512,7 +541,7 @@ impl<'a> Fx<'a> {
                 let rt = self.tyx(&m.receiver)?;
                 match (n.as_str(), m.args.len()) {
                     ("clone", 0) | ("as_ref", 0) | ("as_mut", 0) | ("take", 0) | ("borrow", 0) | ("borrow_mut", 0) | ("rc_deref", 0)
-                    | ("rc_deref_mut", 0) => Some(rt),
+                    | ("rc_deref_mut", 0) | ("iter", 0) | ("iter_mut", 0) | ("into_iter", 0) => Some(rt),
                     ("unwrap", 0) | ("expect", 1) => match rt {
                         Ty::Opt(t) => Some(*t),
                         _ => None,
@@ -539,6 +568,15 @@ impl<'a> Fx<'a> {
                     }
                     if last_seg(&p.path) == "take" && c.args.len() == 1 {
                         return self.tyx(&c.args[0]);
+                    }
+                    if last_seg(&p.path) == "new" && p.path.segments.len() == 2 {
+                        let h = p.path.segments[0].ident.to_string();
+                        if h == "Box" && c.args.len() == 1 {
+                            return self.tyx(&c.args[0]);
+                        }
+                        if h.starts_with("Subscriber") {
+                            return Some(Ty::Pub);
+                        }
                     }
                 }
                 if let Some(Ty::Fun(_, r)) = self.tyx(f) {
@@ -759,7 +797,11 @@ impl<'a> Fx<'a> {
         let t = self.tyx(&l.expr);
         // the payload of an optional struct, borrowed mutably: work on a copy, write it back at the end of the arm
         if let (Some(Ty::Opt(inner)), Pat::TupleStruct(ts)) = (&t, &*l.pat) {
-            if matches!(&**inner, Ty::Named(_)) && last_seg(&ts.path) == "Some" && ts.elems.len() == 1 {
+            let by_ref = matches!(&*l.expr, Expr::MethodCall(mc) if mc.method == "as_mut") || matches!(&*l.expr, Expr::Reference(r) if r.mutability.is_some());
+            if (matches!(&**inner, Ty::Named(_)) || (matches!(&**inner, Ty::List(_)) && by_ref))
+                && last_seg(&ts.path) == "Some"
+                && ts.elems.len() == 1
+            {
                 if let (Pat::Ident(pi), Ok(pl)) = (&ts.elems[0], self.place(&l.expr)) {
                     let v = ident(&pi.ident.to_string());
                     let cur = self.read_place(&pl);
@@ -1165,6 +1207,18 @@ impl<'a> Fx<'a> {
         Ok(format!("({})", s))
     }
 
+    /// the value of a block whose statements may bind monadically (lines are emitted)
+    fn block_value(&mut self, b: &Block) -> Res<String> {
+        let n = b.stmts.len();
+        for (k, st) in b.stmts.iter().enumerate() {
+            match st {
+                Stmt::Expr(e, None) if k + 1 == n => return self.expr(e),
+                _ => self.stmt(st)?,
+            }
+        }
+        Ok("()".into())
+    }
+
     fn closure1(&mut self, e: &Expr, t: Option<Ty>) -> Res<(String, String)> {
         if let Expr::Closure(c) = e {
             if c.inputs.len() != 1 {
@@ -1231,6 +1285,8 @@ impl<'a> Fx<'a> {
             let name = full.last().unwrap().as_str();
             let args: Vec<&Expr> = c.args.iter().collect();
             match (name, args.len()) {
+                ("new", 1) if full.len() == 2 && full[0] == "Box" => return self.expr(args[0]),
+                ("new", 1) if full.len() == 2 && full[0].starts_with("Subscriber") => return Ok("newPub".into()),
                 ("Some", 1) => return Ok(format!("(some {})", self.expr(args[0])?)),
                 ("new", 0) | ("default", 0) => return Ok("Rs.dflt".into()),
                 ("take", 1) if full.contains(&"mem".to_string()) => {
@@ -1268,6 +1324,15 @@ impl<'a> Fx<'a> {
                 a[k] = format!("(Rs.ToVal.toVal {})", a[k]);
             }
         }
+        if mi.needs_pub {
+            a.push("newPub".into());
+        }
+        if mi.needs_down {
+            a.push("down".into());
+        }
+        if mi.needs_closed {
+            a.push("closedOf".into());
+        }
         let pl = self.place(recv)?;
         let cur = self.read_place(&pl);
         if mi.effectful {
@@ -1276,10 +1341,6 @@ impl<'a> Fx<'a> {
             self.write_place(&pl, &format!("{}.1", t))?;
             self.emit(format!("out := out ++ {}.2", t));
             Ok("()".into())
-        } else if mname == "is_finished" {
-            Ok(format!("({}{}.is_finished {} down)", si.prefix, si.name, cur))
-        } else if mname == "is_closed" {
-            Ok(format!("({}{}.is_closed {} closedOf)", si.prefix, si.name, cur))
         } else {
             Ok(format!("({}{}.{} {} {})", si.prefix, si.name, mname, cur, a.join(" ")))
         }
@@ -1291,6 +1352,11 @@ impl<'a> Fx<'a> {
         let args: Vec<&Expr> = m.args.iter().collect();
         if self.is_root(whole) {
             return Ok("self_".into());
+        }
+        // the struct's own methods through `self`
+        if Self::is_self(&m.receiver) && self.strukt.methods.contains_key(&name) {
+            let si: &'a StructInfo = self.strukt;
+            return self.struct_call(si, &name, &m.receiver, &args);
         }
         // methods of translated structs (nested observers, helpers, the state behind a cell)
         let rt = self.tyx(&m.receiver);
@@ -1308,6 +1374,82 @@ impl<'a> Fx<'a> {
                 return self.struct_call(si, &name, &m.receiver, &args);
             }
             return bail("the slot observer (RcObserver) is not available in this module");
+        }
+        // a boxed subscriber of a subject
+        if rt == Some(Ty::Pub) {
+            let r = self.expr(&m.receiver)?;
+            match (name.as_str(), nargs) {
+                ("p_next", 1) => {
+                    let v = self.expr(args[0])?;
+                    self.out(format!("Rs.emitTo {}.id (Notif.next (Rs.ToVal.toVal {}))", r, v))?;
+                    return Ok("()".into());
+                }
+                ("p_error", 1) => {
+                    let v = self.expr(args[0])?;
+                    self.out(format!("Rs.emitTo {}.id (Notif.error {})", r, v))?;
+                    return Ok("()".into());
+                }
+                ("p_complete", 0) => {
+                    self.out(format!("Rs.emitTo {}.id Notif.complete", r))?;
+                    return Ok("()".into());
+                }
+                ("p_unsubscribe", 0) => {
+                    self.out(format!("Rs.emitUnsub {}.id", r))?;
+                    return Ok("()".into());
+                }
+                ("p_is_closed", 0) => return Ok(format!("(closedOf {}.id)", r)),
+                ("clone", 0) => return Ok(r),
+                _ => return bail(format!("method `.{}` of a boxed subscriber", name)),
+            }
+        }
+        // iteration with a closure over a list
+        if name == "for_each" && nargs == 1 {
+            if let (Some(Ty::List(et)), Expr::Closure(c)) = (rt.clone(), args[0]) {
+                if !self.effectful || c.inputs.len() != 1 {
+                    return bail("for_each in an unexpected position");
+                }
+                let xs = self.expr(&m.receiver)?;
+                let p = self.pat(&c.inputs[0])?;
+                let mut body = self.sub();
+                body.bind(&c.inputs[0], Some(*et));
+                body.ind = 2;
+                body.expr_stmt(&c.body)?;
+                if body.lines.is_empty() {
+                    body.emit("pure ()");
+                }
+                let sn = self.state_ty();
+                self.emit(format!("let r ← Rs.forEach ({}) (self_, out) (fun (p : {} × Rs.Out) {} => do", xs, sn, p));
+                self.emit("    let mut self_ := p.1");
+                self.emit("    let mut out := p.2");
+                for l in body.lines {
+                    self.emit(l);
+                }
+                self.emit("    return (self_, out))");
+                self.emit("self_ := r.1");
+                self.emit("out := r.2");
+                return Ok("()".into());
+            }
+        }
+        if name == "retain" && nargs == 1 {
+            if let (Some(Ty::List(et)), Expr::Closure(_)) = (rt.clone(), args[0]) {
+                let (p, b) = self.closure1(args[0], Some(*et))?;
+                let pl = self.place(&m.receiver)?;
+                let cur = self.read_place(&pl);
+                self.write_place(&pl, &format!("(List.filter (fun {} => {}) {})", p, b, cur))?;
+                return Ok("()".into());
+            }
+        }
+        if name == "append" && nargs == 1 {
+            if let Some(Ty::List(_)) = rt {
+                // `dst.append(&mut src)`: everything moves over, `src` is left empty
+                let src = self.mut_list_place(args[0])?;
+                let scur = self.read_list_place(&src)?;
+                let pl = self.place(&m.receiver)?;
+                let cur = self.read_place(&pl);
+                self.write_place(&pl, &format!("({} ++ {})", cur, scur))?;
+                self.clear_list_place(&src)?;
+                return Ok("()".into());
+            }
         }
         // a nested subscription
         if rt == Some(Ty::Sub) {
@@ -1339,7 +1481,7 @@ impl<'a> Fx<'a> {
         }
         match (name.as_str(), nargs) {
             ("clone", 0) | ("as_ref", 0) | ("as_mut", 0) | ("borrow", 0) | ("borrow_mut", 0) | ("to_owned", 0) | ("iter", 0)
-            | ("into_iter", 0) | ("rc_deref", 0) | ("rc_deref_mut", 0) => self.expr(&m.receiver),
+            | ("into_iter", 0) | ("iter_mut", 0) | ("rc_deref", 0) | ("rc_deref_mut", 0) => self.expr(&m.receiver),
             // ---- the downstream observer
             ("next", 1) | ("error", 1) | ("complete", 0) | ("is_finished", 0) => {
                 if rt != Some(Ty::Obs) {
@@ -1388,8 +1530,42 @@ impl<'a> Fx<'a> {
                 };
                 let r = self.expr(&m.receiver)?;
                 let d = self.pure_expr(args[0])?;
-                let (p, b) = self.closure1(args[1], inner)?;
-                Ok(format!("(match {} with | some {} => {} | none => {})", r, p, b, d))
+                match self.closure1(args[1], inner.clone()) {
+                    Ok((p, b)) => Ok(format!("(match {} with | some {} => {} | none => {})", r, p, b, d)),
+                    Err(_) => {
+                        // the closure can panic: keep its effects inside the `some` arm
+                        let Expr::Closure(c) = args[1] else { return bail("expected a closure literal") };
+                        if c.inputs.len() != 1 {
+                            return bail("closure arity");
+                        }
+                        let p = self.pat(&c.inputs[0])?;
+                        let mut fx = self.sub();
+                        fx.tmp = self.tmp;
+                        fx.bind(&c.inputs[0], inner);
+                        fx.ind = self.ind + 3;
+                        let b = match &*c.body {
+                            Expr::Block(bl) => fx.block_value(&bl.block)?,
+                            other => fx.expr(other)?,
+                        };
+                        self.tmp = fx.tmp;
+                        if fx.lines.iter().any(|x| {
+                            let t = x.trim_start();
+                            !(t.starts_with("let ") || t.starts_with("pure ") || t.starts_with("| ") || t.starts_with("(if "))
+                        }) {
+                            return bail("state change inside a map_or closure");
+                        }
+                        let t = self.fresh("t");
+                        self.emit(format!("let {} ← (match {} with", t, r));
+                        self.emit(format!("  | some {} => do", p));
+                        for x in fx.lines {
+                            self.lines.push(x);
+                        }
+                        let pad = "  ".repeat(self.ind + 3);
+                        self.lines.push(format!("{}pure {}", pad, b));
+                        self.emit(format!("  | none => pure {})", d));
+                        Ok(t)
+                    }
+                }
             }
             ("map", 1) => {
                 let inner = match &rt {
@@ -1493,6 +1669,51 @@ impl<'a> Fx<'a> {
                 Ok(t)
             }
             _ => bail(format!("method `.{}/{}` not understood (receiver `{}`)", name, nargs, show(&m.receiver))),
+        }
+    }
+
+    /// the Lean name of the state type
+    fn state_ty(&self) -> String {
+        self.strukt.name.clone()
+    }
+
+    /// `src` of `dst.append(src)`: a list place, or `<Option<list> place>.as_mut().unwrap()`
+    fn mut_list_place(&mut self, e: &Expr) -> Res<(Place, bool)> {
+        let mut x = e;
+        loop {
+            match x {
+                Expr::Reference(r) => x = &r.expr,
+                Expr::Paren(p) => x = &p.expr,
+                _ => break,
+            }
+        }
+        if let Expr::MethodCall(m) = x {
+            if m.method == "unwrap" && m.args.is_empty() {
+                let pl = self.place(&m.receiver)?;
+                if matches!(self.place_ty(&pl), Some(Ty::Opt(_))) {
+                    return Ok((pl, true));
+                }
+            }
+        }
+        Ok((self.place(x)?, false))
+    }
+
+    fn read_list_place(&mut self, p: &(Place, bool)) -> Res<String> {
+        let cur = self.read_place(&p.0);
+        if p.1 {
+            let t = self.fresh("t");
+            self.emit(format!("let {} ← Rs.unwrap {}", t, cur));
+            Ok(t)
+        } else {
+            Ok(cur)
+        }
+    }
+
+    fn clear_list_place(&mut self, p: &(Place, bool)) -> Res<()> {
+        if p.1 {
+            self.write_place(&p.0, "(some [])")
+        } else {
+            self.write_place(&p.0, "[]")
         }
     }
 
@@ -1734,16 +1955,37 @@ pub fn translate_observer(items: &[Item], name: &str, ctx: &mut Ctx, hints: &Has
     let mut sigs = vec![];
     for u in &units {
         let fname = u.f.sig.ident.to_string();
-        let gg = generics_for(&merge_generics(&u.im.generics, &u.f.sig.generics), &err_names, ctx, hints)?;
+        // the error type parameter of THIS impl: second argument of Observer / Observable / Publisher
+        let mut errs_here = err_names.clone();
+        if let Some(tr) = &u.im.trait_ {
+            let ta = type_args(&tr.0);
+            if ta.len() >= 2 && matches!(last_seg(&tr.0).as_str(), "Observer" | "Observable" | "Publisher") {
+                if let Type::Path(tp) = ta[1] {
+                    errs_here.push(last_seg(&tp.path));
+                }
+            }
+        }
+        let gg = generics_for(&merge_generics(&u.im.generics, &u.f.sig.generics), &errs_here, ctx, hints)?;
         let recv = u.f.sig.inputs.first();
         let by_ref_only = matches!(recv, Some(FnArg::Receiver(r)) if matches!(&r.kind, syn::ReceiverKind::Reference(_, _, None)));
         if !matches!(recv, Some(FnArg::Receiver(_))) {
             continue;
         }
-        let has_ret = !matches!(u.f.sig.output, ReturnType::Default);
+        let mut has_ret = !matches!(u.f.sig.output, ReturnType::Default);
+        let subscribe = fname == "actual_subscribe";
+        if subscribe {
+            has_ret = false; // the subscription handed back is the new subscriber itself (`newPub`)
+        }
         if has_ret && !by_ref_only {
             return bail(format!("{}::{}: a method that both mutates and returns a value", name, fname));
         }
+        let body_txt = show_full(&u.f.block);
+        let needs_closed = body_txt.contains("is_closed") || fname == "is_closed";
+        let needs_down = has_ret && (body_txt.contains("is_finished") || fname == "is_finished");
+        let ret = match &u.f.sig.output {
+            ReturnType::Type(_, t) if has_ret => gg.ty(t).map_err(|e| format!("{}::{}: {}", name, fname, e))?,
+            _ => Ty::Unit,
+        };
         let mut params = vec![];
         for (k, a) in u.f.sig.inputs.iter().skip(1).enumerate() {
             if let FnArg::Typed(pt) = a {
@@ -1756,7 +1998,10 @@ pub fn translate_observer(items: &[Item], name: &str, ctx: &mut Ctx, hints: &Has
                 params.push((pn, ty));
             }
         }
-        info.methods.insert(fname.clone(), MethodInfo { effectful: !has_ret, params: params.clone() });
+        info.methods.insert(
+            fname.clone(),
+            MethodInfo { effectful: !has_ret, params: params.clone(), needs_closed, needs_down, needs_pub: subscribe, ret: ret.clone() },
+        );
         sigs.push((fname, params, !has_ret));
     }
     let mut s = String::new();
@@ -1780,7 +2025,7 @@ pub fn translate_observer(items: &[Item], name: &str, ctx: &mut Ctx, hints: &Has
         StructInfo {
             name: info.name.clone(),
             fields: info.fields.clone(),
-            methods: info.methods.iter().map(|(k, v)| (k.clone(), MethodInfo { effectful: v.effectful, params: v.params.clone() })).collect(),
+            methods: info.methods.iter().map(|(k, v)| (k.clone(), v.clone())).collect(),
             root_ty: info.root_ty.clone(),
             prefix: String::new(),
         },
@@ -1797,7 +2042,17 @@ pub fn translate_observer(items: &[Item], name: &str, ctx: &mut Ctx, hints: &Has
         }
         let Some((_, params, effectful)) = sigs.iter().find(|x| x.0 == fname) else { continue };
         done.push(fname.clone());
-        let ps: String = params.iter().map(|(n, t)| format!(" ({} : {})", n, t.lean())).collect();
+        let mut ps: String = params.iter().map(|(n, t)| format!(" ({} : {})", n, t.lean())).collect();
+        let mi = info.methods[&fname].clone();
+        if mi.needs_pub {
+            ps += " (newPub : Rs.Pub)";
+        }
+        if mi.needs_down {
+            ps += " (down : Bool)";
+        }
+        if mi.needs_closed {
+            ps += " (closedOf : Nat → Bool)";
+        }
         let mut fx = Fx {
             strukt: &info,
             ctx,
@@ -1828,16 +2083,36 @@ pub fn translate_observer(items: &[Item], name: &str, ctx: &mut Ctx, hints: &Has
                 writeln!(s, "  return (self_, out)\n").unwrap();
             }
         } else {
+            let down = "";
             match fx.pure_block(&u.f.block) {
-                Ok(v) => {
-                    let down = match fname.as_str() {
-                        "is_finished" => " (down : Bool)",
-                        "is_closed" => " (closedOf : Nat → Bool)",
-                        _ => "",
-                    };
-                    writeln!(s, "def {}.{} (self_ : {}){}{} : Bool :=\n  {}\n", name, fname, state_ty, ps, down, v).unwrap()
+                Ok(v) => writeln!(s, "def {}.{} (self_ : {}){}{} : {} :=\n  {}\n", name, fname, state_ty, ps, down, mi.ret.lean(), v).unwrap(),
+                Err(e1) => {
+                    // a query that can panic (`unwrap()`): the same in the Option monad
+                    let mut fx2 = Fx { strukt: &info, ctx, lines: vec![], ind: 1, tmp: 0, locals: params.iter().cloned().collect(), aliases: HashMap::new(), effectful: false, newtype };
+                    let n = u.f.block.stmts.len();
+                    let mut res: Res<String> = bail("empty body");
+                    for (k, st) in u.f.block.stmts.iter().enumerate() {
+                        match st {
+                            Stmt::Expr(e, None) if k + 1 == n => res = fx2.expr(e),
+                            _ => {
+                                if let Err(e) = fx2.stmt(st) {
+                                    res = Err(e);
+                                    break;
+                                }
+                            }
+                        }
+                    }
+                    match res {
+                        Ok(v) => {
+                            writeln!(s, "def {}.{} (self_ : {}){}{} : Option {} := do", name, fname, state_ty, ps, down, mi.ret.lean()).unwrap();
+                            for l in fx2.lines {
+                                writeln!(s, "{}", l).unwrap();
+                            }
+                            writeln!(s, "  return {}\n", v).unwrap();
+                        }
+                        Err(e2) => errors.push(format!("{}::{}: {} / {}", name, fname, e1, e2)),
+                    }
                 }
-                Err(e) => errors.push(format!("{}::{}: {}", name, fname, e)),
             }
         }
     }
@@ -1932,7 +2207,12 @@ impl<'a> InitFx<'a> {
                         {
                             return self.expr(&c.args[0], want)
                         }
-                        ("new", 0) | ("default", 0) | ("with_capacity", 1) => return Ok("Rs.dflt".into()),
+                        ("new", 0) | ("default", 0) | ("with_capacity", 1) => {
+                            return Ok(match want {
+                                Ty::List(_) => "[]".into(),
+                                _ => "Rs.dflt".into(),
+                            })
+                        }
                         ("own", 1) => return self.expr(&c.args[0], want),
                         _ => {}
                     }
@@ -2032,6 +2312,24 @@ fn find_struct_lit<'e>(e: &'e Expr, name: &str) -> Option<&'e syn::ExprStruct> {
 /// `def XObserver.init (params…) : XObserver` from the struct literal inside `XOp::actual_subscribe`
 /// (or, when `actual_subscribe` calls `XObserver::new(..)`, from the literal inside that `new`).
 pub fn translate_init(items: &[Item], op: &str, obs: &str, ctx: &Ctx, hints: &HashMap<String, Ty>) -> Res<String> {
+    if op == obs {
+        // `impl Default for X { fn default() -> Self { Self { .. } } }`
+        let f = impls_of(items, op)
+            .into_iter()
+            .filter(|im| matches!(&im.trait_, Some(tr) if last_seg(&tr.0) == "Default"))
+            .flat_map(|im| im.items.iter())
+            .find_map(|it| match it {
+                ImplItem::Fn(f) if f.sig.ident == "default" => Some(f),
+                _ => None,
+            })
+            .ok_or(format!("impl Default for {} not found", op))?;
+        let mut fx = InitFx { op_fields: HashMap::new(), used: vec![], ctx, items, locals: HashMap::new(), obs_locals: vec![], lets: HashMap::new() };
+        let body = Expr::Block(syn::ExprBlock { attrs: vec![], label: None, block: f.block.clone() });
+        let lit = find_struct_lit(&body, obs).ok_or(format!("no struct literal in {}::default", obs))?;
+        let v = fx.expr(&Expr::Struct(lit.clone()), &Ty::Named(obs.to_string()))?;
+        let _ = hints;
+        return Ok(format!("def {}.init : {} :=\n  {}\n\n", obs, obs, v));
+    }
     let st = find_struct(items, op).ok_or(format!("struct {} not found", op))?;
     let im = impls_of(items, op)
         .into_iter()
@@ -2408,6 +2706,9 @@ fn main() {
     std::fs::create_dir_all(out).unwrap();
     let mut failed = 0;
     for ent in table::table() {
+        if !ent.expanded_mod.is_empty() && a.get(3).is_none() {
+            continue; // needs the compiler-expanded source: left as it is when none is given
+        }
         let mut lean = String::new();
         writeln!(lean, "/- GENERATED by /verif/rs2lean from src/{} — do not edit. -/", ent.file).unwrap();
         writeln!(lean, "import RxModel.Gen.Prelude").unwrap();
@@ -2418,7 +2719,41 @@ fn main() {
         // the items of the file (macro stamps expanded), plus those of the extra files
         let mut items: Vec<Item> = vec![];
         let mut parse_err = None;
-        for f in std::iter::once(&ent.file).chain(ent.extra_files.iter()) {
+        if !ent.expanded_mod.is_empty() {
+            // the compiler's own macro expansion of the crate (cargo +nightly rustc -- -Zunpretty=expanded)
+            match a.get(3) {
+                None => parse_err = Some("no expanded source given (nightly toolchain unavailable?)".to_string()),
+                Some(path) => {
+                    let text = std::fs::read_to_string(path).unwrap_or_default();
+                    match syn::parse_file(&text) {
+                        Ok(file) => {
+                            fn find<'f>(items: &'f [Item], path: &[&str]) -> Option<&'f [Item]> {
+                                if path.is_empty() {
+                                    return Some(items);
+                                }
+                                for it in items {
+                                    if let Item::Mod(m) = it {
+                                        if m.ident == path[0] {
+                                            if let Some((_, inner)) = &m.content {
+                                                return find(inner, &path[1..]);
+                                            }
+                                        }
+                                    }
+                                }
+                                None
+                            }
+                            let path: Vec<&str> = ent.expanded_mod.split("::").collect();
+                            match find(&file.items, &path) {
+                                Some(its) => items.extend(its.iter().cloned()),
+                                None => parse_err = Some(format!("module {} not found in the expanded source", ent.expanded_mod)),
+                            }
+                        }
+                        Err(e) => parse_err = Some(format!("cannot parse the expanded source: {}", e)),
+                    }
+                }
+            }
+        }
+        for f in std::iter::once(&ent.file).chain(ent.extra_files.iter()).filter(|_| ent.expanded_mod.is_empty()) {
             let text = std::fs::read_to_string(src.join(f)).unwrap_or_default();
             match syn::parse_file(&text) {
                 Ok(file) => items.extend(expand_file(&file, ent.flavour)),
@@ -2444,10 +2779,11 @@ fn main() {
             // structs of imported modules (only the slot observer so far)
             if ent.imports.contains(&"RcObserver") {
                 let mut methods = HashMap::new();
-                methods.insert("next".to_string(), MethodInfo { effectful: true, params: vec![("value".into(), Ty::Val)] });
-                methods.insert("error".to_string(), MethodInfo { effectful: true, params: vec![("err".into(), Ty::Err)] });
-                methods.insert("complete".to_string(), MethodInfo { effectful: true, params: vec![] });
-                methods.insert("is_finished".to_string(), MethodInfo { effectful: false, params: vec![] });
+                let mi = |e: bool, ps: Vec<(String, Ty)>| MethodInfo { effectful: e, params: ps, needs_closed: false, needs_down: !e, needs_pub: false, ret: Ty::Bool };
+                methods.insert("next".to_string(), mi(true, vec![("value".into(), Ty::Val)]));
+                methods.insert("error".to_string(), mi(true, vec![("err".into(), Ty::Err)]));
+                methods.insert("complete".to_string(), mi(true, vec![]));
+                methods.insert("is_finished".to_string(), mi(false, vec![]));
                 ctx.structs.insert(
                     "RcObserver".into(),
                     StructInfo {
